@@ -187,11 +187,17 @@ func checkMain(args []string) {
 	}
 	timeout := 20
 	cross := false
+	if v := os.Getenv("GOVC_TIMEOUT"); v != "" {
+		fmt.Sscan(v, &timeout) // development aid (runs against seeded changes); registered commands never set it
+	}
 	if *tier == "thorough" {
 		timeout = 60
 		cross = true
 	}
 	cacheDir = filepath.Join(*verif, "out", "cache")
+	if v := os.Getenv("GOVC_CACHE_DIR"); v != "" {
+		cacheDir = v // development aid: share the result cache between scratch runs
+	}
 	if os.Getenv("GOVC_NOCACHE") != "" {
 		cacheDir = ""
 	}
@@ -254,7 +260,7 @@ func checkMain(args []string) {
 		if j.res.Status == "unsat" {
 			nDis++
 			bySolver[j.res.Solver]++
-			if len(samples) < 3 && j.res.Solver != "trivial" && (ob.Kind == "post" || ob.Kind == "lemma" || ob.Kind == "inv-pres" || strings.HasPrefix(ob.Kind, "safe")) {
+			if len(samples) < 4 && j.res.Solver != "trivial" && !strings.Contains(full, "/auto:") && (ob.Kind == "post" || ob.Kind == "lemma" || strings.Contains(full, "/step/") || (len(samples) < 1 && strings.HasPrefix(ob.Kind, "safe"))) {
 				samples = append(samples, map[string]any{"obligation": full, "kind": ob.Kind, "text": ob.Text, "pos": ob.Pos, "solver": j.res.Solver, "time_s": j.res.TimeS, "smt_file": j.path})
 			}
 			continue
